@@ -109,7 +109,7 @@ func checkC02(c *Check) {
 	// that held events are not discarded by the cleanup before the staleness
 	// window has passed (C16)
 	na := importRules(c, "C03", checkC03, "delivery-is-atomic: ", "S2 one-critical-section")
-	na += importRules(c, "C16", checkC16, "held-until-stale: ", "age-sources")
+	na += importRules(c, "C16", checkC16, "held-until-stale: ", "age-sources", "cleanup-guard-exact")
 	c.Floor("imported delivery-is-atomic / held-until-stale obligations", 5, na)
 	isDelivered := func(e *Org) bool { return e != nil && e.K != "index" && e.K != "range" }
 
@@ -722,6 +722,11 @@ func queuePrivate(c *Check, t *Tracker) {
 						base := r.Of(sl.X)
 						good := base.K == "field" && base.Name == "cached" && sameOrg(base.Sub[0], owner)
 						c.Cond(good, "queue-private", construct, p.InstrPos(x), "re-slice of the same object's own queue", "the queue is set to a slice of other storage ("+trimOrg(base.String())+")")
+						// ... and a re-slice only ever empties the queue: cutting it
+						// (dropping elements from either end) loses held events that
+						// were never emitted, possibly the session's end record
+						empties := sl.Low == nil && sl.High != nil && isIntConst(sl.High) && sl.High.(*ssa.Const).Int64() == 0
+						c.Cond(empties, "hold-keeps-queue", construct, p.InstrPos(x), "the re-slice empties the queue ([:0])", "the queue is cut to a part of itself: held events are dropped without having been emitted (none may be lost), and the dropped part may contain the session's credential-disposal record, without which a late login does not release the session")
 						continue
 					}
 					if mk, ok := strip(x.Val).(*ssa.MakeSlice); ok {
